@@ -1004,6 +1004,46 @@ func cmdReplay(args []string) int {
 		fmt.Println("usage: govc replay <replay.json>")
 		return 2
 	}
+	if strings.HasSuffix(args[0], "_test.go") {
+		// a scenario file (as named by a KNOWN-FINDING line or a "fixed:" record): run it on the current tree
+		path := args[0]
+		if !filepath.IsAbs(path) {
+			path = filepath.Join(verifDir, path)
+		}
+		sb, err := os.ReadFile(filepath.Join(verifDir, "replay", "scenarios", "scenarios.json"))
+		if err != nil {
+			fmt.Println(err)
+			return 2
+		}
+		var scs []scenario
+		if err := json.Unmarshal(sb, &scs); err != nil {
+			fmt.Println(err)
+			return 2
+		}
+		for _, sc := range scs {
+			if sc.File != filepath.Base(path) {
+				continue
+			}
+			src, err := os.ReadFile(path)
+			if err != nil {
+				fmt.Println(err)
+				return 2
+			}
+			p, err := loadProgram("/repo")
+			if err != nil {
+				fmt.Println(err)
+				return 2
+			}
+			out, _ := runOverlayFile(p, sc.Pkg, string(src), "^"+sc.Run+"$")
+			fmt.Println(out)
+			if strings.Contains(out, "GOVC-SCENARIO confirmed") {
+				return 1
+			}
+			return 0
+		}
+		fmt.Println("no scenario registered for", path)
+		return 2
+	}
 	b, err := os.ReadFile(args[0])
 	if err != nil {
 		fmt.Println(err)
